@@ -42,7 +42,9 @@ DeepTree ==
 SegPats == {<<A>>, <<STAR, A>>, <<A, STAR>>, <<A, STAR, Bb>>, <<STAR, DOT, STAR>>, <<Bb, STAR, Bb>>, <<STAR, Bb, STAR>>, <<A, DOT, Bb>>, <<STAR, STAR, A>>}
 AllStar(p) == \A i \in 1..Len(p) : p[i] = STAR
 FilePats == SegPats \cup {<<STAR>>}
+(* a pattern that ends in a slash has an empty last segment: no file name is empty, nothing is listed *)
 DeepPats == {<<f>> : f \in FilePats} \cup {<<d, f>> : d \in SegPats, f \in FilePats}
+              \cup {<<f, <<>>>> : f \in FilePats} \cup {<<d, f, <<>>>> : d \in {<<A>>, <<A, STAR>>}, f \in FilePats}
               \cup {<<d, e, f>> : d \in {<<A>>, <<A, STAR>>, <<STAR, Bb>>}, e \in {<<A>>, <<STAR, Bb>>, <<Bb, STAR>>}, f \in FilePats}
 
 EntryJ(e) == [path |-> e.path, dir |-> e.dir]
